@@ -655,6 +655,9 @@ func genC07(g *Gen) error {
 	if err := genC07Meta(g); err != nil {
 		return err
 	}
+	if err := genC07Wire(g); err != nil {
+		return err
+	}
 	g.Footer()
 	return nil
 }
